@@ -183,18 +183,52 @@ def M_of(case):
     return int(w[2]) if w[0] == 'mm' else 0
 
 
+def _src_hash(ctx, src, flags):
+    """hash of everything the harness binary depends on: harness source, private_access.h, every momo header, flags"""
+    import hashlib
+    h = hashlib.sha256()
+    h.update(open(os.path.join(ctx.pdir, src), 'rb').read())
+    h.update(open(os.path.join(ctx.root, 'harness', 'private_access.h'), 'rb').read())
+    h.update(repr(flags).encode()); h.update(ctx.tier.encode())
+    inc = os.path.join(ctx.repo, 'include')
+    for dp, dn, fn in sorted(os.walk(inc)):
+        dn.sort()
+        for f in sorted(fn):
+            fp = os.path.join(dp, f)
+            h.update(os.path.relpath(fp, inc).encode()); h.update(open(fp, 'rb').read())
+    return h.hexdigest()[:14]
+
+
 def build(ctx):
+    """build (or reuse: the binary name carries the hash of all its inputs, incl. every header of the repo in use)"""
     jobs = [('harness.cpp', 'harness_m%d' % M, ['-DHM_LIST=X(%d)' % M]) for M in MS]
-    if os.path.exists(os.path.join(ctx.pdir, 'harness_um.cpp')):
-        jobs.append(('harness_um.cpp', 'harness_um', []))
-    res = ctx.cxx_many(jobs)
-    exes = {}
-    for M in MS: exes[M] = res.get('harness_m%d' % M)
-    exes[0] = res.get('harness_um')
-    missing = [k for k, v in exes.items() if v is None and (k != 0 or len(jobs) > len(MS))]
+    jobs.append(('harness_um.cpp', 'harness_um', []))
+    exes = {}; todo = []; names = {}
+    for src, exe, fl in jobs:
+        name = '%s_%s' % (exe, _src_hash(ctx, src, fl))
+        names[exe] = name
+        path = os.path.join(ctx.build, name + ('.san' if not ctx.quick() else ''))
+        if os.path.exists(path) and os.environ.get('VERIF_NO_CACHE') != '1':
+            exes[exe] = path
+        else:
+            todo.append((src, name, fl))
+    if todo:
+        res = ctx.cxx_many(todo)
+        for src, exe, fl in jobs:
+            if exe not in exes: exes[exe] = res.get(names[exe])
+    # drop stale binaries of other hashes (keep the directory small)
+    keep = set(os.path.basename(p) for p in exes.values() if p)
+    for f in os.listdir(ctx.build):
+        if f.startswith('harness_') and f not in keep and os.path.isfile(os.path.join(ctx.build, f)) and os.environ.get('VERIF_REPO') is None:
+            try: os.remove(os.path.join(ctx.build, f))
+            except OSError: pass
+    ctx.coverage['harness_cache'] = {'rebuilt': [t[1] for t in todo], 'reused': len(jobs) - len(todo)}
+    out = {M: exes.get('harness_m%d' % M) for M in MS}
+    out[0] = exes.get('harness_um')
+    missing = [k for k, v in out.items() if v is None]
     if missing:
         ctx.stage('build-harness', False, 'harness for %s does not build:\n%s' % (missing, getattr(ctx, 'last_cxx_error', '')))
-    return exes
+    return out
 
 
 def replay(ctx, rp):
@@ -202,8 +236,7 @@ def replay(ctx, rp):
     if not case:
         print('replay has no concrete case (no-failing-input-found): broken stages were', list(rp.get('broken', {}).keys())); return 1
     M = M_of(case)
-    src, exe, fl = ('harness.cpp', 'harness_m%d' % M, ['-DHM_LIST=X(%d)' % M]) if M else ('harness_um.cpp', 'harness_um', [])
-    h = ctx.cxx(src, exe, fl)
+    h = build(ctx).get(M)
     if h is None:
         print('harness does not build'); return 2
     path = os.path.join(ctx.build, 'replay.cases'); open(path, 'w').write(case + '\n')
